@@ -58,6 +58,8 @@ inductive Path
   | lastCkpt      -- <save_ckpt_path>/last.ckpt
   | trainChunks   -- <np_chunks_path>/train_chunks/*.npz
   | valChunks     -- <np_chunks_path>/val_chunks/*.npz
+  | bestCkptV1    -- <save_ckpt_path>/best-v1.ckpt  (second run into a folder that already has best.ckpt)
+  | lastCkptV1    -- <save_ckpt_path>/last-v1.ckpt
   deriving DecidableEq, Repr
 
 /-- Which stage of the configuration a file holds. -/
@@ -65,6 +67,7 @@ inductive Which
   | supplied   -- `verify_training_cfg(config)`: what the caller passed, schema-merged
   | prepared   -- + max_height/width, crop_hw, skeletons, part_names/edges (end of `__init__`)
   | used       -- + model_config.total_params (what training actually ran with)
+  | stale      -- a configuration of an *earlier* run into the same folder (any stage)
   deriving DecidableEq, Repr
 
 inductive Content
@@ -239,18 +242,65 @@ def fsReuseAt (v : Version) (f1 : Flags) (r1 : List Bool) (f2 : Flags) (r2 : Lis
 def fsReuseAfter (v : Version) (f1 : Flags) (r1 : List Bool) (f2 : Flags) (r2 : List Bool) : FS :=
   fsFrom (reuseStart v f1 r1) (traceR v f2 r2)
 
+/-! ## Two-run history into the SAME folder (same `save_ckpt_path`, same `np_chunks_path`)
+
+Run A is any fresh run; run B is any fresh run (other model type / flags / configuration) started
+in the folder A left behind.  The file system before B's first write is A's final state, with
+every configuration A wrote now *stale* (`age`: it is no longer "the supplied / used
+configuration" of the run in progress; key and run-id bits are kept exactly).  B writes exactly
+what a fresh run writes — the config files are overwritten — except that the installed Lightning
+never overwrites a checkpoint of another run: when A left `best.ckpt` / `last.ckpt`
+(`fA.ckpt`), B's checkpoints go to `best-v1.ckpt` / `last-v1.ckpt` (observed on the real code),
+rewritten in place by B's later epochs. -/
+
+def Content.aged : Content → Content
+  | .config _ b r => .config .stale b r
+  | .data => .data
+
+/-- What an earlier run left: same files, same key / run-id bits, configurations now stale. -/
+def age (fs : FS) : FS := fun p => (fs p).map Content.aged
+
+/-- One validation epoch writing to given checkpoint paths. -/
+def ckptRoundP (pb pl : Path) (v : Version) (f : Flags) (improved : Bool) : List Event :=
+  if improved then
+    [.write pb (cfg .used (blankTrain v f) false), .write pl (cfg .used (blankTrain v f) false)]
+  else []
+
+def fitPhaseP (pb pl : Path) (v : Version) (f : Flags) (rounds : List Bool) : List Event :=
+  if f.ckpt then rounds.flatMap (ckptRoundP pb pl v f) else []
+
+def bestPath (aHadCkpt : Bool) : Path := if aHadCkpt then .bestCkptV1 else .bestCkpt
+def lastPath (aHadCkpt : Bool) : Path := if aHadCkpt then .lastCkptV1 else .lastCkpt
+
+/-- The trace of run B in a folder where an earlier run did (`aHadCkpt`) or did not leave checkpoints. -/
+def traceS (v : Version) (aHadCkpt : Bool) (f : Flags) (rounds : List Bool) : List Event :=
+  initPhase v f ++ resavePhase v f ++ chunkPhase f
+    ++ fitPhaseP (bestPath aHadCkpt) (lastPath aHadCkpt) v f rounds ++ finallyPhase v f
+
+/-- File system when run B starts in run A's folder. -/
+def sameStart (v : Version) (fA : Flags) (rA : List Bool) : FS := age (fsAfter (traceG v fA rA))
+
+/-- File system at crash point `n` of run B (A's leftovers mixed with what B has written so far). -/
+def fsSameAt (v : Version) (fA : Flags) (rA : List Bool) (fB : Flags) (rB : List Bool) (n : Nat) : FS :=
+  fsFrom (sameStart v fA rA) ((traceS v fA.ckpt fB rB).take n)
+
+def fsSameAfter (v : Version) (fA : Flags) (rA : List Bool) (fB : Flags) (rB : List Bool) : FS :=
+  fsFrom (sameStart v fA rA) (traceS v fA.ckpt fB rB)
+
 /-! ## Serialisation (driver) -/
 
 def Path.str : Path → String
   | .initialCfg => "initial_config" | .trainingCfg => "training_config" | .chunksCfg => "chunks_config"
   | .bestCkpt => "best_ckpt" | .lastCkpt => "last_ckpt"
   | .trainChunks => "train_chunks" | .valChunks => "val_chunks"
+  | .bestCkptV1 => "best_ckpt_v1" | .lastCkptV1 => "last_ckpt_v1"
 
 def Path.all : List Path :=
-  [.initialCfg, .trainingCfg, .chunksCfg, .bestCkpt, .lastCkpt, .trainChunks, .valChunks]
+  [.initialCfg, .trainingCfg, .chunksCfg, .bestCkpt, .lastCkpt, .trainChunks, .valChunks,
+   .bestCkptV1, .lastCkptV1]
 
 def Which.str : Which → String
-  | .supplied => "supplied" | .prepared => "prepared" | .used => "used"
+  | .supplied => "supplied" | .prepared => "prepared" | .used => "used" | .stale => "stale"
 
 def bit (b : Bool) : String := if b then "1" else "0"
 
